@@ -428,7 +428,7 @@ def c12(res):
             out.append(gg.base_cfg("sim", 1, target_states=rng.choice([8, 30]), seed=rng.randint(0, 2 ** 32), log_chooser=True,
                                    replay_check=True, target_depth=rng.choice([0, 0, 3, 5])))
         return out
-    fam_graph.run_family(res, "C12", ["stop_reason", "target", "target_real", "depth_max", "depth_min", "seed_replay", "first_trace"], graphs, cfgs)
+    fam_graph.run_family(res, "C12", ["stop_reason", "target", "target_real", "sim_count", "target_sim", "depth_max", "depth_min", "seed_replay", "first_trace"], graphs, cfgs)
     # (b2) targets on graphs larger than a block whose states also have successors OUTSIDE the boundary
     bg = []
     for k, (w, h, f) in enumerate([(90, 70, 1), (60, 120, 2), (150, 40, 3)][: (2 if q else 3)]):
@@ -458,6 +458,10 @@ def c12(res):
         for t in (1, 2):
             ms = rng.choice([300, 600])
             ccfgs.append(dict(gg.base_cfg(s_, t, timeout_ms=ms, no_visitor=True, watchdog_ms=ms + 1000 + 5500), expect_timeout=True))
+    # a LONG timeout (several polling periods of the timeout thread): a poll interval that grows with the time already
+    # waited stays inside the slack for sub-second timeouts; DFS on the chain keeps memory small (a step costs O(depth))
+    for t in (1, 2):
+        ccfgs.append(dict(gg.base_cfg("dfs", t, timeout_ms=7300, no_visitor=True, watchdog_ms=7300 + 1000 + 5500), expect_timeout=True))
     ip = os.path.join(wd, "t-items.ndjson")
     rp = os.path.join(wd, "t-runs.ndjson")
     write_ndjson(ip, [dict(g=unb, gi=1, cfgs=[c]) for c in tcfgs] + [dict(g=chain, gi=2, cfgs=[c]) for c in ccfgs])
